@@ -10,6 +10,7 @@
 -/
 import VotelibProofs.Lemmas.Validate
 import Mathlib.Algebra.BigOperators.Group.List.Basic
+import Mathlib.Data.List.Nodup
 namespace VL.C20
 open VL.Validate
 
@@ -1028,7 +1029,7 @@ theorem ranked_default_names (names : List Nat) :
       simp [Within, BoundMap.get, rankCands]
 
 /-- an approval vote for a set of distinct names is accepted iff their number is within the bounds -/
-theorem approval_names (lo hi : Option Rat) (names : List Nat) (hnd : names.Nodup) :
+theorem approval_names (lo hi : Option Rat) (names : List Nat) :
     validateApproval ⟨⟨lo, hi⟩, .basic true⟩ (.fset (names.map .str)) = .ok ()
       ↔ (∀ l ∈ lo, l ≤ names.length) ∧ (∀ h ∈ hi, (names.length : Rat) ≤ h) := by
   have hinj : Function.Injective Obj.str := fun a b h => by cases h; rfl
